@@ -115,13 +115,18 @@ def classify(val):
 TEXT_CHARS = string.ascii_letters + string.digits + "_!@#%^&*+=.-~?<>|/"
 
 
+# further very short text values, set by a check for its own workloads (C07: a back-tick is an ordinary character of a
+# secret, at its start, at its end or at both - it is not enclosing text)
+EXTRA_SHORT = []
+
+
 def gen_secret(r, cls, slen=4, exact_len=None, avoid=()):
     """A secret value of the given format class that belongs to no other class."""
     for _ in range(200):
         if cls == "text":
             if exact_len is None and r.random() < 0.08:
                 # very short values, also ones that begin like a hash marker: "$x", "$1", "$6"
-                v = r.choice(["$x", "$1", "$6", "$9", "$Z", "x$", "$1x", "Zq", "$$k"])
+                v = r.choice(["$x", "$1", "$6", "$9", "$Z", "x$", "$1x", "Zq", "$$k"] + EXTRA_SHORT)
                 if v in avoid:
                     continue
                 return v
